@@ -23,6 +23,9 @@ RULE = (
     "publications and a pull strictly between two of them (part backlog: 33-90 publications retained when the pulls "
     "begin), or a conversion with factor != 1, or a flat "
     "payload on an F-order grid with >=2 non-degenerate axes. distinct = canonical JSON."
+    " int_payload_enum: int16/int32/int64/uint64 arrays over 9 unit pairs with whole-number factors, both routes (ends "
+    "declare different units; quantity published in foreign units), magnitudes up to value*factor beyond the integer range: "
+    "the pulled numbers are the physical conversion (rtol 1e-9); non-trivial = product outside the dtype's range."
 )
 ASSUMPTIONS = [
     "unit conversion oracle = hand-written catalogue (vf/h_units.py); rtol 1e-10",
@@ -347,8 +350,59 @@ def backlog_case(draw):
             "cgrid": None, "limit": draw(st.sampled_from([None, None, 0, 40.5])), "vexp": 0, "unit_us": draw(st.sampled_from([None, None, 50000, 1]))}
 
 
+# ------------------------------------------------------------------ integer payloads over converting links
+INT_PAIRS = [("day", "s"), ("h", "s"), ("min", "s"), ("year", "s"), ("ha", "m2"), ("km2", "m2"), ("s", "ms"), ("s", "min"), ("m2", "ha")]
+INT_MAGS = {"int16": [3, 30000], "int32": [7, 2**31 - 9], "int64": [11, 2**31 + 5, 2 * 10**13, 11 * 10**13, 10**15, 2**62 + 12345], "uint64": [5, 2 * 10**13, 2**63 + 99]}
+
+
+def check_ints(case, ctx):
+    """integer arrays (counts, codes, raw sensor values) published on a link whose ends declare different units, or
+    published as a quantity in foreign units: what arrives is the published number converted to the consumer's units -
+    also when value * factor leaves the range of the integer type. Reference: Python int -> float * catalogue factor."""
+    import finam as fm
+    from finam.data import tools
+
+    a, b, dt, mag, route = case["a"], case["b"], case["dtype"], case["mag"], case["route"]
+    vals = np.array([mag, mag - 1, mag // 3 + 1, 1, 0], dtype=dt)
+    if np.dtype(dt).kind == "i":
+        vals[2] = -vals[2]
+    ref = np.array([float(int(v)) for v in vals])
+    exp = hu.convert(ref, a, b)
+    fac = hu.CATALOGUE[a][1] / hu.CATALOGUE[b][1]
+    ctx.nontrivial(abs(mag * fac) >= 2.0 ** (8 * np.dtype(dt).itemsize - 1))
+    ctx.event(f"{dt}|{'overflowing-product' if abs(mag * fac) >= 2.0 ** (8 * np.dtype(dt).itemsize - 1) else 'in-range'}")
+    g = fm.NoGrid(1)
+    if route == "link":
+        link = hs.Link(fm.Info(time=hs.T0, grid=g, units=a), [fm.Info(time=hs.T0, grid=g, units=b)])
+        payload = vals.copy()
+    else:
+        link = hs.Link(fm.Info(time=hs.T0, grid=g, units=b), [fm.Info(time=hs.T0, grid=g, units=b)])
+        payload = tools.UNITS.Quantity(vals.copy(), a)
+    link.connect()
+    try:
+        link.out.push_data(payload, hs.T0)
+        r = link.inputs[0].pull_data(hs.T0)
+    except (fm.FinamDataError, fm.FinamMetaDataError, OverflowError, TypeError, ValueError) as e:
+        ctx.violation(f"int-payload-fails|{route}", f"{dt} payload {a!r} -> {b!r} ({route}): {type(e).__name__}: {str(e)[:160]}")
+        return
+    got = np.asarray(np.ma.getdata(r.magnitude)[0], dtype=float)
+    if got.shape != exp.shape or not np.allclose(got, exp, rtol=1e-9, atol=0.0):
+        ctx.violation(f"int-values|{route}", f"{dt} values {vals.tolist()} {a!r} -> {b!r} ({route}) arrive as {got.tolist()}, physical conversion is {exp.tolist()}")
+    if r.units != tools.UNITS.Unit(b):
+        ctx.violation("int-units-label", f"pulled data labelled {r.units}, consumer declared {b!r}")
+
+
+def enum_ints(tier):
+    for a, b in INT_PAIRS:
+        for dt, mags in INT_MAGS.items():
+            for mag in mags:
+                for route in ("link", "quant"):
+                    yield {"a": a, "b": b, "dtype": dt, "mag": mag, "route": route}
+
+
 def parts():
     return [
+        Part("int_payload_enum", check_ints, enumerate=enum_ints, exhaustive=True),
         Part("histories", hs.with_epoch(check), strategy=hs.plus_epoch(case_st()), budget={"quick": 2000, "thorough": 50000}),
         Part("backlog", hs.with_epoch(check), strategy=hs.plus_epoch(backlog_case()), budget={"quick": 200, "thorough": 8000}, shrink_budget=150),
     ]
